@@ -41,8 +41,70 @@ func (b *builder) returnType(what string) {
 	}
 }
 
-// expr writes an expression containing one resolvable reference.
+// expr writes an expression containing resolvable references, optionally
+// inside a container expression (so that the name sits deep in the tree: the
+// resolver only sees what the traverser reaches).
 func (b *builder) expr() {
+	b.depth++
+	defer func() { b.depth-- }()
+	if b.depth > 3 {
+		b.exprCore()
+		return
+	}
+	switch b.intn(14, "container") {
+	case 0:
+		b.feats["in:array"]++
+		b.w("[")
+		b.expr()
+		b.w(", 'k' => ")
+		b.expr()
+		b.w("]")
+	case 1:
+		b.feats["in:ternary"]++
+		b.w("($x ? ")
+		b.expr()
+		b.w(" : ")
+		b.expr()
+		b.w(")")
+	case 2:
+		if b.php7 {
+			b.feats["in:anonymous-class-args"]++
+			b.w("new class(")
+			b.expr()
+			b.w(") extends ")
+			b.ref(kClass, false, "extends")
+			b.w(" { }")
+			return
+		}
+		b.exprCore()
+	case 3:
+		b.feats["in:call-argument"]++
+		b.w("$obj->m(1, ")
+		b.expr()
+		b.w(")")
+	case 4:
+		b.feats["in:closure-body"]++
+		b.w("function () { return ")
+		b.expr()
+		b.w("; }")
+	case 5:
+		b.feats["in:binary"]++
+		b.w("(")
+		b.expr()
+		b.w(" . ")
+		b.expr()
+		b.w(")")
+	case 6:
+		b.feats["in:isset-empty"]++
+		b.w("empty(")
+		b.expr()
+		b.w(")")
+	default:
+		b.exprCore()
+	}
+}
+
+func (b *builder) exprCore() {
 	switch b.intn(9, "exprkind") {
 	case 0:
 		b.w("new ")
@@ -89,7 +151,85 @@ func (b *builder) expr() {
 }
 
 func (b *builder) stmt() {
-	switch b.intn(5, "stmtkind") {
+	b.depth++
+	defer func() { b.depth-- }()
+	if b.depth > 3 {
+		b.expr()
+		b.w(";\n")
+		return
+	}
+	switch b.intn(16, "stmtkind") {
+	case 5:
+		b.feats["in:if"]++
+		b.w("if (")
+		b.expr()
+		b.w(") { ")
+		b.stmt()
+		b.w("} elseif (")
+		b.expr()
+		b.w(") ")
+		b.stmt()
+		b.w("else { ")
+		b.stmt()
+		b.w("}\n")
+	case 6:
+		b.feats["in:switch"]++
+		b.w("switch (")
+		b.expr()
+		b.w(") { case ")
+		b.expr()
+		b.w(": ")
+		b.stmt()
+		b.w("default: ")
+		b.stmt()
+		b.w("}\n")
+	case 7:
+		b.feats["in:loops"]++
+		switch b.intn(3, "loop") {
+		case 0:
+			b.w("while (")
+			b.expr()
+			b.w(") { }\n")
+		case 1:
+			b.w("for ($i = 0; ")
+			b.expr()
+			b.w("; $i++) ;\n")
+		default:
+			b.w("do { } while (")
+			b.expr()
+			b.w(");\n")
+		}
+	case 8:
+		b.feats["in:foreach"]++
+		b.w("foreach (")
+		b.expr()
+		b.w(" as $k => $v) { ")
+		b.stmt()
+		b.w("}\n")
+	case 9:
+		b.feats["in:echo-return-throw"]++
+		b.w(b.pick("kw", "echo ", "return ", "throw ", "print "))
+		b.expr()
+		b.w(";\n")
+	case 10:
+		b.feats["in:static-var"]++
+		b.w("static $s = ")
+		b.ref(kConst, true, "constant-fetch")
+		b.w(";\n")
+	case 11:
+		b.feats["in:alt-syntax"]++
+		b.w("if (")
+		b.expr()
+		b.w("): ")
+		b.stmt()
+		b.w("else: ")
+		b.stmt()
+		b.w("endif;\n")
+	case 12:
+		b.feats["in:finally"]++
+		b.w("try { } finally { ")
+		b.stmt()
+		b.w("}\n")
 	case 0:
 		b.w("try { ")
 		b.expr()
@@ -210,7 +350,13 @@ func (b *builder) members() {
 				b.typeRef("property-type")
 				b.w(" ")
 			}
-			fmt.Fprintf(&b.b, "$q%d; ", i)
+			fmt.Fprintf(&b.b, "$q%d", i)
+			if b.chance(1, 3, "propdefault") {
+				b.feats["in:property-default"]++
+				b.w(" = ")
+				b.ref(kConst, true, "constant-fetch")
+			}
+			b.w("; ")
 		case 2:
 			b.w("const K = ")
 			b.ref(kConst, true, "constant-fetch")
